@@ -249,7 +249,8 @@ Definition set_rhs (r : srow) (v : Q) : srow :=
 Definition set_range (r : srow) (v : Q) : srow :=
   {| sr_name := sr_name r; sr_sense := sr_sense r; sr_rhs := sr_rhs r; sr_range := v |}.
 Definition set_sense (r : srow) (s : sense) : srow :=
-  {| sr_name := sr_name r; sr_sense := s; sr_rhs := sr_rhs r; sr_range := sr_range r |}.
+  {| sr_name := sr_name r; sr_sense := s; sr_rhs := sr_rhs r;
+     sr_range := match s with SR => sr_range r | _ => 0 end |}.   (* only a ranged row has a range *)
 
 Definition chg_obj (p : prob) (j : Z) (v : Q) : option prob :=
   match idx (ncol p) j with Some j' => Some (set_cols p (upd_nth j' (fun c => set_obj c v) (p_cols p))) | None => None end.
